@@ -328,3 +328,29 @@ func relevant(assumes []*Term, goal []*Term) []*Term {
 	}
 	return out
 }
+
+// solveModel asks the z3 versions only (cvc5 is run without model production).
+func solveModel(q string, tmo time.Duration) solverRes {
+	queryMu.Lock()
+	queryCtr++
+	id := queryCtr
+	queryMu.Unlock()
+	file := filepath.Join(tmpDir, fmt.Sprintf("m%d.smt2", id))
+	os.WriteFile(file, []byte(q), 0o644)
+	defer os.Remove(file)
+	ctx, cancel := context.WithCancel(context.Background())
+	defer cancel()
+	ch := make(chan solverRes, 2)
+	for _, n := range []string{"z3-new", "z3"} {
+		go func(n string) { ch <- runSolver(ctx, n, file, tmo) }(n)
+	}
+	var last solverRes
+	for i := 0; i < 2; i++ {
+		x := <-ch
+		if x.status == "sat" || x.status == "unsat" {
+			return x
+		}
+		last = x
+	}
+	return last
+}
